@@ -8,7 +8,7 @@ pub fn sha(text: &[u8]) -> String {
     d.iter().map(|b| format!("{b:02x}")).collect()
 }
 
-pub const OUTCOMES: [&str; 18] = [
+pub const OUTCOMES: [&str; 19] = [
     "Theorem",
     "CounterSatisfiable",
     "ContradictoryAxioms",
@@ -27,6 +27,7 @@ pub const OUTCOMES: [&str; 18] = [
     "TimeoutAfterLongOutput",
     "GaveUpThenTheorem",
     "TheoremThenKilledBySignal",
+    "NoStatusStderrTheorem",
 ];
 
 /// does a prover run with this outcome print `SZS status Theorem` (in valid UTF-8 output)?
@@ -87,6 +88,12 @@ pub fn main() -> ! {
         }
         "NoStatus" => {
             let _ = out.write_all(b"% nothing to see here\nTheorem\n");
+            0
+        }
+        "NoStatusStderrTheorem" => {
+            // nothing about a status on stdout; a status-like line on stderr (a wrapper's log) does not count
+            let _ = out.write_all(b"% nothing to see here\n");
+            eprintln!("% wrapper: previous result was SZS status Theorem for some_other_problem");
             0
         }
         "NonUtf8" => {
